@@ -71,6 +71,62 @@ type UnitOpts struct {
 	// invariants and panic sites are assumed (a partial contract for functions that are
 	// mostly outside the subset: goroutines, channels, closures stored in the heap).
 	AssertsOnly bool
+	// Groups: if non-empty, only the labelled clauses (loop invariants, loopinv, ensures, assert@)
+	// whose label is g or starts with g+"-" for some g in Groups are used; unlabelled clauses,
+	// requires and assume@ clauses are always kept. Independent groups of invariants are proved
+	// inductive separately (a conjunction of inductive invariants is inductive), which keeps each
+	// solver query small.
+	Groups []string
+}
+
+func (o UnitOpts) keep(label string) bool {
+	if len(o.Groups) == 0 || label == "" {
+		return true
+	}
+	for _, g := range o.Groups {
+		if label == g || strings.HasPrefix(label, g+"-") {
+			return true
+		}
+	}
+	return false
+}
+
+// filterContract returns a copy of ct restricted to the clause groups of opts.
+func filterContract(ct *Contract, o UnitOpts) *Contract {
+	if len(o.Groups) == 0 {
+		return ct
+	}
+	nc := *ct
+	nc.Ensures = nil
+	for _, c := range ct.Ensures {
+		if o.keep(c.Label) {
+			nc.Ensures = append(nc.Ensures, c)
+		}
+	}
+	nc.LoopInv = nil
+	for _, c := range ct.LoopInv {
+		if o.keep(c.Label) {
+			nc.LoopInv = append(nc.LoopInv, c)
+		}
+	}
+	nc.Asserts = nil
+	for _, a := range ct.Asserts {
+		if a.Assume || o.keep(a.Label) {
+			nc.Asserts = append(nc.Asserts, a)
+		}
+	}
+	nc.Loops = map[string]*LoopSpec{}
+	for k, ls := range ct.Loops {
+		nl := *ls
+		nl.Invariants = nil
+		for _, c := range ls.Invariants {
+			if o.keep(c.Label) {
+				nl.Invariants = append(nl.Invariants, c)
+			}
+		}
+		nc.Loops[k] = &nl
+	}
+	return &nc
 }
 
 // VerifyFunc symbolically executes the function and returns the unit with
@@ -84,8 +140,10 @@ func (e *Engine) VerifyFunc(name string, opts UnitOpts) (u *Unit, err error) {
 	if ct == nil {
 		ct = &Contract{Func: name, Loops: map[string]*LoopSpec{}, Opts: map[string]string{}}
 	}
+	ct = filterContract(ct, opts)
 	u = newUnit(e, name)
 	u.exact = ct.Arith == "exact"
+	u.sidx0 = ct.Opts["sidx0"] == "true"
 	u.nopanic = opts.NoPanic
 	u.cover = opts.Cover
 	u.opts = opts
